@@ -53,18 +53,34 @@ func ReaderParamEncoder(addr string) jsonrpc.Option {
 type waitReadCloser struct {
 	io.ReadCloser
 	wait chan struct{}
+
+	// closeWait makes sure wait is closed only once: a reader may well be read
+	// again after it returned an error, or be closed after EOF
+	closeWait sync.Once
+	// err is the first error returned by Read; it is returned again by later
+	// reads (once wait is closed the request body goes away)
+	err error
 }
 
 func (w *waitReadCloser) Read(p []byte) (int, error) {
+	if w.err != nil {
+		return 0, w.err
+	}
+
 	n, err := w.ReadCloser.Read(p)
 	if err != nil {
-		close(w.wait)
+		w.err = err
+		w.closeWait.Do(func() {
+			close(w.wait)
+		})
 	}
 	return n, err
 }
 
 func (w *waitReadCloser) Close() error {
-	close(w.wait)
+	w.closeWait.Do(func() {
+		close(w.wait)
+	})
 	return w.ReadCloser.Close()
 }
 
